@@ -129,6 +129,12 @@ func vhDepsSource(depth int, x string) string {
 	case 8:
 		// a call through an interface is NOT a reference to the method (Go spec, package initialization)
 		src = "package main\ntype T struct{}\ntype I interface{ m() int }\nvar a = I(T{}).m()\nvar b = 1\nvar c = 2\nfunc (T) m() int { return " + x + " }\n"
+	case 9:
+		// the operand of a field selector
+		src = "package main\ntype S struct{ v int }\nvar a = " + x + ".v\nvar b = S{1}\nvar c = S{2}\n"
+	case 10:
+		// inside a function literal called at once
+		src = "package main\nvar a = func() int { return " + x + " }()\nvar b = 1\nvar c = 2\n"
 	case 3:
 		// a local variable shadows the other global: no dependency on it
 		src = "package main\nvar a = f()\nvar b = 1\nvar c = 2\nfunc f() int { " + vhOther(x) + " := 5; return " + x + " + " + vhOther(x) + " }\n"
@@ -206,6 +212,14 @@ func vhDepsHand(i *Interpreter, depth int, x string) (a *node, sc *scope, want, 
 	case 7:
 		sc.sym["T"] = tsym
 		vhAdopt(an, aid, vhAdopt(&node{interp: i, kind: callExpr}, msel(ref("T", tsym)), lit()))
+	case 9:
+		sel := vhAdopt(&node{interp: i, kind: selectorExpr, action: aGetIndex}, ref(x, xsym), &node{interp: i, kind: identExpr, ident: "v"})
+		vhAdopt(an, aid, sel)
+	case 10:
+		lit := vhAdopt(&node{interp: i, kind: funcLit}, &node{interp: i, kind: undefNode},
+			vhAdopt(&node{interp: i, kind: funcType}, &node{interp: i, kind: fieldList}, &node{interp: i, kind: fieldList}),
+			vhAdopt(&node{interp: i, kind: blockStmt}, vhAdopt(&node{interp: i, kind: returnStmt}, ref(x, xsym))))
+		vhAdopt(an, aid, vhAdopt(&node{interp: i, kind: callExpr}, lit))
 	case 8:
 		sc.sym["T"] = tsym
 		isym := &symbol{kind: typeSym}
@@ -251,7 +265,7 @@ func vhDepsReal(depth int, x string) (a *node, sc *scope, want, other *node) {
 	return sc.sym["a"].node, sc, sc.sym[x].node, sc.sym[vhOther(x)].node
 }
 
-var vhDepthMax = 8
+var vhDepthMax = 10
 
 func vh_C15_deps() {
 	vhResetClock()
